@@ -69,6 +69,9 @@ func runC19(r *Run) {
 	if want("http.table") {
 		c19HttpTable(r)
 	}
+	if want("http.firstcontact") {
+		c19HttpFirstContact(r)
+	}
 }
 
 // ---------------------------------------------------------------------------
